@@ -80,7 +80,9 @@ def run(ctx):
     S7 = rep.rule('C10.R2', 'only entries that have a lock are written (shared with C10)', floor=1)
     S1 = rep.rule('C01.R1', 'no stored value is dropped (replaced / removed) while only a shared borrow of the cache is held (shared with C01)', floor=8)
     S3 = rep.rule('C01.R3', 'destroying map operations need &mut self (shared with C01)', floor=4)
+    S8 = rep.rule('C07.R6', 'a reference mapped out of a read guard cannot outlive the guard (and so cannot reach a value a reload drops): the closures of AssetReadGuard::map / try_map are higher-ranked (shared with C07)', floor=2)
     from c01 import r1 as no_destroy_under_shared_borrow
+    from c07 import r6 as mapped_ref_stays_in_guard
     for cfg, F in ctx.cfgs():
         hr = 'hot-reloading' in ctx.cfg_features[cfg]
         no_destroy_under_shared_borrow(S1, S3, cfg, F)
@@ -102,6 +104,8 @@ def run(ctx):
                 r.finish_cfg(cfg)
         r3(R3, cfg, F, hr)
         R3.finish_cfg(cfg)
+        mapped_ref_stays_in_guard(S8, cfg, F)
+        S8.finish_cfg(cfg)
 
 
 def transparent_over(F, wrapper, inner_rx):
